@@ -34,6 +34,25 @@ theorem C05_described_node_loads (env : Env) (tbl : List Entry) (fuel : Nat) (T 
     ∃ calls trace processed, loadNode env tbl fuel n T = .ok ⟨v, calls, trace, processed⟩ :=
   RT_load env tbl fuel T v n hdesc
 
+/-- a node describes at most one value -/
+theorem C05_described_value_unique (env : Env) (tbl : List Entry) (fuel : Nat) (T : Ty) (v v' : PyVal) (n : Node)
+    (h : RT env tbl fuel T v n) (h' : RT env tbl fuel T v' n) : v = v' := by
+  obtain ⟨c, t, p, hl⟩ := RT_load env tbl fuel T v n h
+  obtain ⟨c', t', p', hl'⟩ := RT_load env tbl fuel T v' n h'
+  rw [hl] at hl'
+  injection hl' with hl'
+  injection hl'
+
+/-- **dumping is faithful**: two values that are represented by the same node, both of them described by
+it, are the same value (nothing is lost on the way out) -/
+theorem C05_dump_injective (env : Env) (denv : DumpEnv) (tbl : List Entry) (fuel f : Nat) (T : Ty) (v v' : PyVal)
+    (o o' : RepOut) (hr : represent denv f v = .ok o) (hr' : represent denv f v' = .ok o')
+    (hsame : o.node = o'.node) (h : RT env tbl fuel T v o.node) (h' : RT env tbl fuel T v' o'.node) : v = v' := by
+  have _ := hr
+  have _ := hr'
+  rw [← hsame] at h'
+  exact C05_described_value_unique env tbl fuel T v v' o.node h h'
+
 /-- strings, booleans and null are represented by nodes of the described shape, whatever their text
 ("strings that look like numbers, booleans, nulls" are `!!str` nodes and come back as strings) -/
 theorem C05_scalars_described (env : Env) (tbl : List Entry) (fuel : Nat) (rt : Ty → PyVal → Node → Prop) :
